@@ -205,6 +205,38 @@ def r20_2(ctx):
     return r
 
 
+def r20_5(ctx):
+    r = Rule("R20.5", "nothing is inferred for an option the user wrote: the props / emits extractors run only after the existing-key test for that option failed",
+             "inferring first and discarding afterwards leaves imports (mergeDefaults) and diagnostics behind for a call that is not changed, and is not idempotent")
+    want = {"props_extractor": "props", "emits_extractor": "emits"}
+    n = 0
+    for hb in C.visitor_methods(ctx):
+        idx = None
+        for x in walk(hb["body"]):
+            if x.get("k") not in ("Call", "MethodCall"):
+                continue
+            for role, opt in want.items():
+                b = C.role(ctx, role)
+                if b is None or x.get("callee") != b["path"]:
+                    continue
+                idx = idx or HirIndex(hb)
+                n += 1
+                r.saw(hb["path"])
+                ok = False
+                seen = []
+                for f in idx.known_true(x):
+                    if not isinstance(f, tuple):
+                        continue
+                    e = strip_transparent(f[1])
+                    seen.append(expr_str(e)[:50])
+                    if e.get("k") in ("Call", "MethodCall") and (e.get("ty") or "") == "bool" and any(const_str(a) == opt for a in e["args"]):
+                        ok = True
+                r.ob("%s: %s runs only when the options have no `%s`" % (hb["name"], role, opt), ok, C.mloc(hb, x),
+                     "under the failed test %s" % [t for t in seen if opt in t][:1] if ok else "no failed existing-key test for `%s` is known at this call (negated facts here: %s)" % (opt, seen[:3]))
+    r.ob("extractor call sites examined", n > 0, "-", "%d site(s)" % n)
+    return r
+
+
 KEYED_PROPS = {"KeyValue", "Getter", "Setter", "Method"}
 
 
@@ -227,7 +259,23 @@ def r20_3(ctx):
         # a write before the guard?
         if any(x.get("k") == "MethodCall" and x["method"] in ("push", "insert", "remove") for x in walk(st)):
             break
-    r.ob("spread argument list is left alone", guard is not None, C.mloc(inj, guard or inj), "early return when the options argument is a spread element, before any write" if guard else "no early return on `options.spread.is_some()` before the first write")
+    r.ob("spread argument list is left alone", guard is not None, C.mloc(inj, guard or inj), "early return on a spread argument, before any write" if guard else "no early return on `.spread.is_some()` before the first write")
+    if guard is not None:
+        # ... wherever in the list the spread stands: the test ranges over the arguments, it is not a look at one position
+        t = expr_str(guard["cond"])
+        over_all = bool(re.search(r"\.args\.iter\(\)\.(any|find|position)\(", t)) or ("args.first()" in t and "args.get(1)" in t) or ("args.get(0)" in t and "args.get(1)" in t)
+        lo = None
+        for x in walk(guard["cond"]):
+            if x.get("k") == "Path" and x["res"].get("r") == "local":
+                lo = x["res"]
+        if not over_all and lo is not None:
+            bd = idx.binding.get(lo["id"])
+            if bd and bd.get("init") is not None:
+                ti = expr_str(bd["init"])
+                over_all = bool(re.search(r"\.args\.iter\(\)\.(any|find|position)\(", ti))
+                t = t + " where " + lo["name"] + " = " + ti
+        r.ob("the spread test covers the whole argument list", over_all, C.mloc(inj, guard),
+             t[:120] if over_all else "`%s` looks at one position only: `defineComponent(...args)` still gets options appended" % t[:100])
     # (b) non-literal arm: [KeyValue(injected), Spread(user)] in this order
     found_b = False
     for n in walk(body):
@@ -249,10 +297,23 @@ def r20_3(ctx):
         r.ob("wrapping a non-literal options expression: injected key before the spread", None, C.mloc(inj, inj), "no ObjectLit with a Spread is constructed (different strategy: not decided)")
     # (c) literal arm: existing-key scan + insertion before the first spread
     scan = None
+    scan_call = None     # the scan may live in a local predicate that the injector consults first: `if has_option(call, name) { return }`
+    scan_body = body
     for n in walk(body):
         if n.get("k") == "MethodCall" and n["method"] == "any" and n["args"] and n["args"][0].get("k") == "Closure":
             if "PropOrSpread" in (strip_transparent(n["recv"]).get("ty") or "") or any("PropOrSpread" in (x.get("ty") or "") for x in walk(n["recv"])):
                 scan = n
+    if scan is None:
+        for st in body["stmts"] if body.get("k") == "Block" else []:
+            if st.get("k") == "If" and st.get("else") is None and any(x.get("k") == "Ret" for x in walk(st["then"])):
+                c = strip_transparent(st["cond"])
+                hb2 = ctx.facts.hir_by_path.get((inj["crate"], c.get("callee"))) if c.get("k") in ("Call", "MethodCall") else None
+                if hb2 is not None and hb2["output"] == "bool":
+                    for n in walk(hb2["body"]):
+                        if n.get("k") == "MethodCall" and n["method"] == "any" and n["args"] and n["args"][0].get("k") == "Closure" and \
+                                any("PropOrSpread" in (x.get("ty") or "") for x in walk(n["recv"])):
+                            scan, scan_call, scan_body = n, c, hb2["body"]
+                            r.saw(hb2["path"])
     if scan is None:
         other = [x for x in walk(body) if x.get("k") == "MethodCall" and x["method"] in ("all", "find", "find_map", "filter", "contains", "iter", "for_each")
                  and any("PropOrSpread" in (y.get("ty") or "") for y in walk(x["recv"]))]
@@ -275,7 +336,7 @@ def r20_3(ctx):
             if x.get("k") == "MethodCall" and x["method"] in ("as_ident",):
                 keyforms.add("Ident")
         # key forms may live in a helper closure bound by let
-        for x in walk(body):
+        for x in walk(scan_body):
             if x.get("k") in ("PTupleStruct", "PStruct") and x.get("adt") == AST + "PropName" and x.get("variant"):
                 keyforms.add(x["variant"])
         need_v = {"KeyValue", "Method", "Getter", "Shorthand"}
@@ -288,7 +349,9 @@ def r20_3(ctx):
         guarded = 0
         for w in writes:
             kt = idx.known_true(w)
-            if any(isinstance(f, tuple) and f[1] is scan for f in kt) or any((not isinstance(f, tuple)) and f.get("k") == "Unary" and f.get("op") == "!" and strip_transparent(f["e"]) is scan for f in kt):
+            if scan_call is not None and any(isinstance(f, tuple) and strip_transparent(f[1]) is scan_call for f in kt):
+                guarded += 1
+            elif any(isinstance(f, tuple) and f[1] is scan for f in kt) or any((not isinstance(f, tuple)) and f.get("k") == "Unary" and f.get("op") == "!" and strip_transparent(f["e"]) is scan for f in kt):
                 guarded += 1
         r.ob("injection into an options literal is guarded by the scan", bool(writes) and guarded == len(writes), C.mloc(inj, scan), "%d of %d write(s) under `!any(..)`" % (guarded, len(writes)))
         # insertion position: before the first spread
@@ -350,7 +413,7 @@ def r20_4(ctx):
 
 
 def rules(ctx):
-    return [r20_1, r20_2, r20_3, r20_4]
+    return [r20_1, r20_2, r20_3, r20_4, r20_5]
 
 
 EXPLANATION = (
